@@ -341,3 +341,22 @@ def report(ctx, traces, verdicts, xlen, kind):
                          "rv%d %s (word %s, amoco mnemonic %s): first deviating clause `%s` %s; no listed deviation explains the post-state"
                          % (xlen, f["op"], word, s.get("mn"), f["clause"], s["raised"]), rep)
     return nfail
+
+
+def replay_step(xlen, step):
+    """re-execute a recorded step (replay files): the pre-state is rebuilt from the recorded dump"""
+    from amoco.cas.mapper import mapper
+    from amoco.cas.expressions import cst, mem
+    cpu = cpu_of(xlen)
+    reset_flags(cpu)
+    m = mapper()
+    pre = step["pre"]
+    for i in range(1, 32):
+        m[cpu.x[i]] = cst(unlimbs(pre["x"][i]), xlen)
+    m[cpu.pc] = cst(unlimbs(pre["pc"]), xlen)
+    for a, b in pre["mem"]:
+        m.mmap.write(cst(unlimbs(a), xlen), bytes([b & 0xFF]))
+    pre2, _ = observe(m, cpu, xlen)
+    dec, mn, raised = apply_word(m, cpu, xlen, unlimbs(step["w"]))
+    post, symz = observe(m, cpu, xlen)
+    return {"w": step["w"], "dec": dec, "raised": raised, "pre": pre2, "post": post, "mn": mn, "symz": symz}
